@@ -39,6 +39,7 @@ def explore(desc, make_case, owns, signature, classify=None, sample_pred=None, m
     """make_case(rng, i) -> dict(scenario=Scenario, faults=[None|fault,...], value_of=..., prepare=...)
     owns(rule) -> bool; signature(case, ck, log) -> hashable or None (non-trivial signature)."""
     rng = random.Random(desc["seed"])
+    hung = []
     counters = {"scenarios": 0, "runs": 0, "foreign_aborts": 0, "own_rejections": 0, "log_events": 0,
                 "harness_errors": 0}
     foreign = {}
@@ -77,23 +78,17 @@ def explore(desc, make_case, owns, signature, classify=None, sample_pred=None, m
                         signal.setitimer(signal.ITIMER_REAL, 0)
             except ScenarioTimeout:
                 # neither the library nor the reference may spin: a scenario takes milliseconds
+                # (a wall-clock watchdog: its firing is INCONCLUSIVE, never a verdict)
                 counters["scenario_hangs"] = counters.get("scenario_hangs", 0) + 1
-                violations.append({
-                    "mechanism": "scenario-does-not-terminate", "rule": "hang",
-                    "detail": f"scenario still running after {scenario_timeout}s (library call or callback never returned)",
-                    "witness": {"scenario": sc.to_json(), "fault": fault},
-                })
+                hung.append(f"scenario {counters['scenarios']} (seed {desc.get('seed')}) still running after {scenario_timeout}s wall clock")
                 if counters["scenario_hangs"] >= 3:
                     break
                 continue
             except Exception as err:  # noqa: BLE001  harness problem, never a verdict
                 counters["harness_errors"] += 1
                 if counters["harness_errors"] <= 2:
-                    violations.append({
-                        "mechanism": "harness-error:" + type(err).__name__, "rule": "harness",
-                        "detail": traceback.format_exc()[-1500:],
-                        "witness": {"scenario": sc.to_json(), "fault": fault},
-                    })
+                    hung.append(f"harness error in scenario {counters['scenarios']} (seed {desc.get('seed')}): "
+                                + traceback.format_exc()[-600:].replace("\n", " | "))
                 continue
             counters["runs"] += 1
             counters["log_events"] += len(log)
@@ -147,6 +142,8 @@ def explore(desc, make_case, owns, signature, classify=None, sample_pred=None, m
            "counters": counters, "violations": violations}
     if counters["scenarios"] and counters["foreign_aborts"] > 0.25 * counters["runs"]:
         out["inconclusive"] = [f"foreign aborts {counters['foreign_aborts']} of {counters['runs']} runs: {foreign}"]
+    if hung:
+        out["inconclusive"] = out.get("inconclusive", []) + ["watchdog / harness: " + "; ".join(hung[:3])]
     return out
 
 
